@@ -85,6 +85,9 @@ def obligation_props(unit, f, prop_default):
     if unit is not None and not isinstance(unit, klib.KaniUnit):
         # clause-level tags: Piece.contract entries (kind, name, expr, props) ; lemma tags
         for p in unit.pieces.values():
+            m = re.search(r'::(?:inv|termination)#L(\d+)', f['obligation'])
+            if m and p.full_label() in f['obligation'] and p.loop_ops.get(int(m.group(1)), {}).get('props'):
+                return p.loop_ops[int(m.group(1))]['props']
             for kind, name, expr, props in p.contract:
                 if props and f['obligation'].endswith('#' + name) and p.full_label() in f['obligation']:
                     return props
